@@ -86,6 +86,11 @@ ENGINES["sys"] = dict(
               "sys6.options-added", "sys6.address-assigned", "sys6.chain-len-4"],
 )
 
+ENGINES["serve"] = dict(
+    drv="serve", starts=("sv6", "sv4"), trivial=r"$^", noshrink=True,
+    branches=["serve.sv6.q.procs1", "serve.sv6.l.procs1", "serve.sv6.q.procsn", "serve.sv6.l.procsn", "serve.sv4.q.procs1", "serve.sv4.l.procs1", "serve.sv4.q.procsn", "serve.sv4.l.procsn", "serve.answered"],
+)
+
 ENGINES["chain"] = dict(drv="chain", starts=("ccfg",), trivial=r"=> drop$", branches=["chain.cfg4.ok", "chain.cfg6.ok", "chain.drop", "chain.send"])
 ENGINES["allocc"] = dict(drv="alloc", starts=("new6", "new4"), trivial=r"$^", branches=["batch", "arace"], noshrink=True)
 ENGINES["rangec"] = dict(drv="range", starts=("rsetup",), trivial=r"$^", branches=["batch"], noshrink=True)
@@ -150,7 +155,7 @@ PROPS = {
                      "plugin names reach the loader lower-cased by viper"],
     ),
     "C01": dict(
-        engines=[("chain", 2500, 60000), ("dispatch4", 3000, 60000), ("dispatch6", 3000, 60000), ("prefix", 1500, 30000), ("filec", 40, 250), ("sys", 1500, 30000)],
+        engines=[("chain", 2500, 60000), ("dispatch4", 3000, 60000), ("dispatch6", 3000, 60000), ("prefix", 1500, 30000), ("filec", 40, 250), ("sys", 1500, 30000), ("serve", 6, 60)],
         theorems=["C01_dispatch4", "C01_dispatch6", "C01_range_never_panics", "C01_alloc6_never_bug", "C01_alloc4_never_panics", "C01_chain_bounded"],
         modules=["CoreDhcp.Props.C01"],
         facts=["F1", "F2", "F5", "F10"],
@@ -161,7 +166,7 @@ PROPS = {
                      "'never blocks forever' is covered as: no modelled step waits on anything but a mutex, and every mutex is released"],
     ),
     "C16": dict(
-        engines=[("allocc", 3000, 60000), ("rangec", 1500, 20000), ("prefixc", 3000, 60000), ("dispatch4c", 3000, 60000), ("filec", 40, 250)],
+        engines=[("allocc", 3000, 60000), ("rangec", 1500, 20000), ("prefixc", 3000, 60000), ("dispatch4c", 3000, 60000), ("filec", 40, 250), ("serve", 8, 80)],
         theorems=["C16_alloc6_any_schedule", "C16_alloc4_any_schedule", "C16_range_any_schedule", "C16_prefix_any_schedule", "C16_file_any_schedule"],
         modules=["CoreDhcp.Props.C16"],
         facts=["F1", "F2", "F4", "F10", "F11"],
@@ -196,7 +201,7 @@ PROPS = {
         assumptions=["'no prefix hint at all' = no IAPrefix option or only IAPrefix options of prefix-length 0; a length-only hint (::/n, n>0) is a hint", "leases are never expired or freed by the plugin (as in the code)"],
     ),
     "C11": dict(
-        engines=[("dispatch4", 6000, 100000), ("sys", 1500, 30000)],
+        engines=[("dispatch4", 6000, 100000), ("sys", 1500, 30000), ("serve", 6, 60)],
         theorems=["C11_holds", "C11_never_answers_non_requests", "SYS_C11", "SYS_frame4"],
         modules=["CoreDhcp.Props.C11", "CoreDhcp.Props.System"],
         trusted_base=[TB_CODEC, TB_HOOK],
@@ -204,7 +209,7 @@ PROPS = {
                      "'every byte string' is 'every parse result, or parse failure': the byte parser is the library's"],
     ),
     "C12": dict(
-        engines=[("dispatch6", 6000, 100000), ("sys", 1500, 30000)],
+        engines=[("dispatch6", 6000, 100000), ("sys", 1500, 30000), ("serve", 6, 60)],
         theorems=["C12_holds", "C12_mirror", "SYS_C12"],
         modules=["CoreDhcp.Props.C12", "CoreDhcp.Props.System"],
         trusted_base=[TB_CODEC, TB_HOOK],
@@ -302,6 +307,7 @@ RULES = {
     "plug": "per built-in plugin: argument vectors from valid, boundary and invalid values of each argument kind and wrong arity, each set up in a fresh process, followed by 6..15 requests (all request-list shapes incl. absent and empty, option 116/54/siaddr/server-id variants, OFFER/ACK/NAK, assigned/unassigned yiaddr, pre-existing options); trivial = a rejected configuration",
     "config": "YAML documents from the configuration grammar (sections present or not, listen scalar/list/absent/non-scalar, every address/zone/port spelling, interface alias, plugin item shapes) plus mutated text; trivial = unreadable document",
     "sys": "chains of 0..7 distinct real built-in plugins (option plugins, server_id, file, range on 2..7 addresses) in any order, arguments from the plug engine's valid/boundary/invalid pools (a rejected set-up leaves the chain shorter), fresh process per chain; 8..27 datagrams each from the plug engine's request battery (request-list shapes, siaddr x option 54 matrix) plus giaddr/ciaddr/broadcast/option 82/61 variants (v4) or all message types, client-id kinds, server-id own/other, ORO shapes, IA_NA, rapid commit, relay nesting with Relay-Reply layers (v6), one in six mutated; the whole reply (every header field and option, destination, port, interface, link-layer flag) is compared with the composed model; trivial = unparsable datagram",
+    "serve": "the real Serve loops on loopback UDP sockets around server_id + dns: 2..24 datagrams (DHCPv6 direct and relayed, all of the supported and some unsupported types, with and without client id, rapid commit, padding options of very different lengths, runts; DHCPv4 relayed via a per-process 127.x.y.z:67, DISCOVER/REQUEST/INFORM/RELEASE/DECLINE, runts of 236..243 bytes) sent one at a time and then as a burst (queued before Serve starts, or while it runs; GOMAXPROCS 1, 2 or 16): every client must get in the burst exactly what it got alone",
     "chain": "random subsets and orders of the real built-in plugins with valid arguments (fresh process per chain), 10..40 well-formed and mutated datagrams each; trivial = dropped datagram",
     "filec": "static lease file under autorefresh, both protocols: 8 goroutines looking one client up as fast as they can while the file is rewritten in place over and over, alternately with two versions that differ in one byte (150 ms per burst, 600 ms in the thorough tier); every answer must be the old or the new file's, all lookups must return, the table must settle on the last version",
     "allocc": "k goroutines allocating / freeing at once on nearly full pools; outcomes judged by linearisability search",
